@@ -23,6 +23,8 @@ var shared = map[string][]sharedRule{
 		{[]func(*core.Ctx){C06}, []string{"C06.R1"}, "C01.R13", 3, "frames for unknown, late or duplicate op ids are dropped without waiting (decided by C06.R1): a blocking hand-over makes a duplicate response stall the delivery of every other caller's response"},
 	},
 	"C03": {
+		{[]func(*core.Ctx){C02}, []string{"C02.R3"}, "C03.R20", 9, "arguments and results are encoded as their declared type (decided by C02.R3): every runtime field writer announces and writes the same wire type"},
+		{[]func(*core.Ctx){C20}, []string{"C20.R4"}, "C03.R21", 2, "a request accepted by the NATS server reaches a worker (decided by C20.R4): the subscription handler enqueues with a plain back-pressure send, no drop and no timeout"},
 		{[]func(*core.Ctx){C15}, []string{"C15.R2"}, "C03.R17", 2, "a reply is decoded by a frame decoder of the connection it arrived on (decided by C15.R2): a decoder kept across a re-open continues in the middle of the old connection's frame"},
 		{[]func(*core.Ctx){C14}, []string{"C14.R1"}, "C03.R18", 7, "the outcome is written under the processor's write mutex and the mutex is released on every exit (decided by C14.R1): otherwise the reply of one call is interleaved with, or blocks, another's"},
 	},
@@ -35,15 +37,28 @@ var shared = map[string][]sharedRule{
 	"C09": {
 		{[]func(*core.Ctx){C04}, []string{"C04.S6", "C04.S4"}, "C09.R10", 14, "the header codec the context travels through is exact (decided by C04.S4/S6): every reject guard of the pair decoder rejects only blocks whose next read would not fit, and prefix/payload offsets of encoder and decoder agree — a header with an empty value, or one serialised last, is never lost or refused"},
 		{[]func(*core.Ctx){C17}, []string{"C17.R2", "C17.R3", "C17.R4", "C17.R5"}, "C09.R11", 20, "the context object itself keeps its headers apart (decided by C17.R2–R5): guarded maps, no escaping map, fresh op id per context, deep Clone — a clone or a concurrent reader must not see or change the headers of the request in flight"},
+		{[]func(*core.Ctx){C01}, []string{"C01.R1", "C01.R3"}, "C09.R13", 4, "a reply reaches the context that issued its request (decided by C01.R1/R3): frames are handed over only under their own _opid, so the response headers merged into a context are those of its own handler"},
 		{[]func(*core.Ctx){C03}, []string{"C03.R4", "C03.R5"}, "C09.R12", 6, "request and reply are complete messages in protocol order and an unknown method's arguments are consumed (decided by C03.R4/R5): the response header is read where it was written"},
+	},
+	"C12": {
+		{[]func(*core.Ctx){C02}, []string{"C02.R3"}, "C12.R15", 9, "a too-large error raised while a field is written reaches the client/processor as the transport exception it is (decided by C02.R3): every runtime field writer hands the protocol's error on through thrift.PrependError, which keeps its type"},
+	},
+	"C20": {
+		{[]func(*core.Ctx){C14}, []string{"C14.R1"}, "C20.R8", 7, "a worker never blocks for ever on the processor's write mutex (decided by C14.R1): held-at-call, released on every exit, never re-acquired by a callee — otherwise Serve's wg.Wait and Stop never return"},
+	},
+	"C07": {
+		{[]func(*core.Ctx){C04}, []string{"C04.S6"}, "C07.R17", 4, "a published message is not discarded for its (valid) headers (decided by C04.S6): the pair decoder rejects only blocks whose next read would not fit"},
 	},
 	"C10": {
 		{[]func(*core.Ctx){C11}, []string{"C11.R5"}, "C10.R17", 1, "the typedef-cycle search uses path discipline (decided by C11.R5): a DAG of typedefs — valid IDL — is not rejected as a cycle"},
 	},
 	"C14": {
+		{[]func(*core.Ctx){C01}, []string{"C01.R9"}, "C14.R15", 4, "every op id a client may send is answered (decided by C01.R9): op ids are read as unsigned 64-bit decimal text everywhere — a server that parses them as a signed int refuses valid requests with ids from 2^63 and never replies"},
+		{[]func(*core.Ctx){C12}, []string{"C12.R1", "C12.R10"}, "C14.R14", 4, "the RESPONSE_TOO_LARGE reply is written into an emptied buffer (decided by C12.R1/R10): every appending method of the bounded buffer resets on rejection, otherwise the truncated reply and the exception go out as one corrupt frame"},
 		{[]func(*core.Ctx){C03, C16}, []string{"C03.R9", "C16.R6"}, "C14.R13", 2, "the reply is built from this invocation's own results (decided by C03.R9/C16.R6): the invocation handler behind every generated processor function keeps no storage across invocations, so two overlapping requests for one method cannot answer with each other's return value"},
 	},
 	"C16": {
+		{[]func(*core.Ctx){C09}, []string{"C09.R3"}, "C16.R12", 3, "what a server middleware sets on the response headers is what the client middleware observes after next (decided by C09.R3): every reply header except _opid is merged into the caller's context whatever it already holds"},
 		{[]func(*core.Ctx){C03}, []string{"C03.R3"}, "C16.R10", 4, "the outcome of the call comes back through the middleware chain (decided by C03.R3): every declared exception is emitted on every non-oneway path of the generated client/processor"},
 		{[]func(*core.Ctx){C07}, []string{"C07.R4"}, "C16.R11", 1, "a failed handler invocation is observable as a failure (decided by C07.R4): the STOMP subscriber acknowledges only on the nil edge of the callback"},
 	},
